@@ -454,8 +454,11 @@ def r6_pagetree_lexical(ctx, rep):
            f"(relpath to the unresolved top directory) of a linked sub-directory becomes '../../x' and its pages are written "
            f"outside the output directory", py.nloc(calls[0]) if calls else py.nloc(fn))
     pn = py.func("PageNode.__init__")
-    t = ast.unparse(pn)
-    ok = "self.location = Path(os.path.relpath(path.parent, self.topdir))" in t and "self.topdir = path.parent" in t
+    locs = [v for _, v in astq.assignments(pn, "self.location") if v is not None]
+    rel = [v for v in locs if any(isinstance(c, ast.Call) and call_name(c).split(".")[-1] in ("relpath", "relative_to") for c in ast.walk(v))]
+    tops = [v for _, v in astq.assignments(pn, "self.topdir") if v is not None]
+    ok = bool(rel) and all("topdir" in ast.unparse(v) and ".parent" in ast.unparse(v) for v in rel) and \
+        any(ast.unparse(v).endswith(".parent") and "self." not in ast.unparse(v) for v in tops)
     rep.ob("PageNode.location is relative to the top page directory", ok, "", py.nloc(pn))
 
 
